@@ -3,8 +3,8 @@
     Rust sources modelled (pinned tree):
     - src/server/taproxy.rs   TrustAnchorProxy: state (74-109), apply (155-241; the two [unwrap]s at
                               213 and 225-238 are [None] here), process_command (243-304),
-                              process_* (332-522), get_signer_request (529-576),
-                              response_for_child (703-723), matching_open_request (734-765)
+                              process_* (332-525), get_signer_request (532-579),
+                              response_for_child (706-726), matching_open_request (737-768)
     - src/api/ta.rs           TrustAnchorSignedResponse::validate (716-735), TrustAnchorChild (822-846),
                               ProvisioningRequest::matches_response (869-878)
     - src/server/ca/manager.rs  ta_slow_rfc6492_request (1257-1324), ta_proxy_signer_* (458-494)
@@ -140,6 +140,12 @@ Fixpoint p_apply_all (p : proxy) (evs : list pevent) : option proxy :=
   | e :: r => match p_apply p e with Some p' => p_apply_all p' r | None => None end
   end.
 
+(** Admission of a revocation request (taproxy.rs:487-495, repaired tree, finding F15b): only for a key
+    that is in use. The originally pinned tree admitted any key present in [used_keys], also one already
+    marked Revoked ([revoke_admitted_pinned]; the wedge it caused: TaProofs.second_revocation_wedged_pinned). *)
+Definition revoke_admitted (u : option ustate) : bool := match u with Some InUse => true | _ => false end.
+Definition revoke_admitted_pinned (u : option ustate) : bool := match u with Some _ => true | None => false end.
+
 Section WithValidate.
   (** [validate C k m]: TrustAnchorSigned{Request,Response}::validate under the public key [k]. *)
   Variable validate : forall C : Type, N -> msg C -> bool.
@@ -172,10 +178,8 @@ Section WithValidate.
             if negb (rq_wf r) then Err EBadRequest
             else match rq_kind r with
                  | KIssue => Ok [EvChildReq c k r]
-                 | KRevoke => match aget k (tc_used ch) with       (* used_keys.contains_key: any state *)
-                              | Some _ => Ok [EvChildReq c k r]
-                              | None => Err EUnknownKey
-                              end
+                 | KRevoke => if revoke_admitted (aget k (tc_used ch)) then Ok [EvChildReq c k r]
+                              else Err EUnknownKey
                  end
         end
     | PGive c k =>
